@@ -182,6 +182,27 @@ type item struct {
 	def  kindDef
 	p    interface{}
 	maps map[string]*valgen.Node
+	// real: the named map fields no longer have a shape the generator knows (the object was filled by the reader, or
+	// the map was changed in place through its own mutators): they are projected through the map's public
+	// enumeration, like on the read side
+	real map[string]bool
+}
+
+func (it *item) isReal(f string) bool { return it.real[f] }
+func (it *item) setReal(f string) {
+	if it.real == nil {
+		it.real = map[string]bool{}
+	}
+	it.real[f] = true
+}
+
+// setRealAll: the object was filled by the reader
+func (it *item) setRealAll() {
+	for _, f := range fieldsOf(it.p) {
+		if f.kind == "m" {
+			it.setReal(f.name)
+		}
+	}
 }
 
 func pairsOf(n *valgen.Node) interface{} {
@@ -213,6 +234,15 @@ func (it *item) projW() obj {
 			}
 			m[f.name] = leaf("a", o)
 		case "m":
+			if it.isReal(f.name) {
+				if f.v.IsNil() {
+					m[f.name] = obj{"k": "m", "has": false, "v": []interface{}{}}
+				} else {
+					pr := valgen.ProjReal(f.v.Interface().(*value.MapValue)).(obj)
+					m[f.name] = obj{"k": "m", "has": true, "v": pr["v"]}
+				}
+				continue
+			}
 			n := it.maps[f.name]
 			m[f.name] = obj{"k": "m", "has": n != nil, "v": pairsOf(n)}
 		}
@@ -307,13 +337,28 @@ func encode(it *item) (b []byte, msg string) {
 	return
 }
 
-// carried: the fields the bytes of the real writer depend on AT THIS POINT:
-// one field at a time is changed, the object is written again, the field is put back.
-func carried(it *item, base []byte) []string {
+// freshCopy builds a NEW object of the item's type through its constructor and gives it the item's exported field
+// values (slices and maps are shared, never modified through the copy): the content of the item without whatever
+// unexported state the item itself has gathered in earlier calls.
+func freshCopy(it *item) *item {
+	c := &item{def: it.def, p: it.def.mk(), maps: it.maps, real: it.real}
+	src, dst := fieldsOf(it.p), fieldsOf(c.p)
+	for i := range src {
+		dst[i].v.Set(src[i].v)
+	}
+	return c
+}
+
+// carried: the fields the bytes of the real writer depend on AT THIS CONTENT: a fresh object with the item's content is
+// written, then once more per field with that one field changed.  (Fresh objects: a writer that answers from something
+// it remembered in an earlier call must not make a field look as if it were not on the wire.)
+func carried(it *item) []string {
 	out := []string{}
-	for _, f := range fieldsOf(it.p) {
-		old := reflect.New(f.v.Type()).Elem()
-		old.Set(f.v)
+	base, bmsg := encode(freshCopy(it))
+	n := len(fieldsOf(it.p))
+	for i := 0; i < n; i++ {
+		c := freshCopy(it)
+		f := fieldsOf(c.p)[i]
 		switch f.kind {
 		case "i":
 			f.v.SetInt(f.v.Int() ^ 1)
@@ -333,16 +378,15 @@ func carried(it *item, base []byte) []string {
 			f.v.Set(s)
 		case "m":
 			n := valgen.Map()
-			if src := it.maps[f.name]; src != nil {
+			if src := it.maps[f.name]; src != nil && !it.isReal(f.name) {
 				n.Keys = append(n.Keys, src.Keys...)
 				n.Items = append(n.Items, src.Items...)
 			}
 			n.Put([]byte("~probe~"), valgen.Text([]byte("x")))
 			f.v.Set(reflect.ValueOf(valgen.Build(n).(*value.MapValue)))
 		}
-		b, msg := encode(it)
-		f.v.Set(old)
-		if msg != "" || !bytes.Equal(b, base) {
+		b, msg := encode(c)
+		if msg != bmsg || !bytes.Equal(b, base) {
 			out = append(out, f.name)
 		}
 	}
@@ -448,6 +492,7 @@ func setMap(it *item, f fld, n *valgen.Node) {
 		it.maps = map[string]*valgen.Node{}
 	}
 	it.maps[f.name] = n
+	delete(it.real, f.name)
 	if n == nil {
 		f.v.Set(reflect.Zero(f.v.Type()))
 	} else {
@@ -641,6 +686,10 @@ type hist struct {
 	gen    string
 	cas    int
 	bypass *int
+	// generators of objects.go
+	steer   map[string]bool // open known findings to steer around
+	nsteer  *int
+	aliased *int
 }
 
 // stream writes the items back to back, optionally re-produces the stream with
@@ -660,9 +709,8 @@ func (h *hist) stream(r *rand.Rand, items []*item, whole bool, car *carrier, ext
 		all := out.ToByteArray()
 		b := core.Cp(all[prev:])
 		prev = len(all)
-		base, _ := encode(it)
 		h.t.Emit(core.Ev{"ev": "W", "fam": it.def.fam, "kind": it.def.name, "tag": tagOf(it), "w": w,
-			"carried": carried(it, base), "bytes": b, "size": out.Size()})
+			"carried": carried(it), "bytes": b, "size": out.Size()})
 		h.c.Count(fmt.Sprintf("%s|%x", it.def.name, []byte(b)), len(b) >= 2)
 		kinds = append(kinds, it.def.name)
 	}
@@ -771,9 +819,8 @@ func (ks *keptStream) encodeKept(r *rand.Rand, c *core.Ctx) {
 		all := ks.out.ToByteArray()
 		b := core.Cp(all[prev:])
 		prev = len(all)
-		base, _ := encode(it)
 		emit(core.Ev{"ev": "W", "fam": it.def.fam, "kind": it.def.name, "tag": tagOf(it), "w": w,
-			"carried": carried(it, base), "bytes": b, "size": ks.out.Size()})
+			"carried": carried(it), "bytes": b, "size": ks.out.Size()})
 		c.Count(fmt.Sprintf("%s|%x", it.def.name, []byte(b)), len(b) >= 2)
 	}
 	ks.views = []string{"DataOutputX"}
@@ -1450,6 +1497,46 @@ func Run(c *core.Ctx) error {
 		h := &hist{c: c, t: keep, gen: "retain", cas: cas, bypass: &bypass}
 		h.retain(r, streams, par, core.Ev{"streams": nk, "parallel": par, "nondet": par})
 	}
+	// ---- the objects (objects.go): written, changed, written again; readers called on objects that hold something
+	objt := c.Trace("c08_obj", "Trace_Profile")
+	steer := openFindings(c)
+	nsteer, aliased := 0, 0
+	oh := func(gen string, cas int) *hist {
+		return &hist{c: c, t: objt, gen: gen, cas: cas, bypass: &bypass, steer: steer, nsteer: &nsteer, aliased: &aliased}
+	}
+	kinds := allKinds()
+	for cas := 0; cas < c.Pick(2, 12)*len(kinds); cas++ {
+		if !c.Want("rewrite", cas) {
+			continue
+		}
+		v := cas / len(kinds)
+		oh("rewrite", cas).rewrite(c.Rng("rewrite", cas), kinds[cas%len(kinds)], v%2 == 1, th && v%6 == 5)
+	}
+	for cas := 0; cas < c.Pick(36, 480); cas++ {
+		if !c.Want("reuse", cas) {
+			continue
+		}
+		r := c.Rng("reuse", cas)
+		fam := []string{"step", "tx", "bare", "tx", "step", "service"}[cas%6]
+		oh("reuse", cas).reuse(r, fam, 3+r.Intn(4), cas%6 == 3)
+	}
+	for cas := 0; cas < c.Pick(9, 120); cas++ {
+		if !c.Want("packreuse", cas) {
+			continue
+		}
+		r := c.Rng("packreuse", cas)
+		oh("packreuse", cas).packreuse(r, cas%len(carriers), 3+r.Intn(3))
+	}
+	// the witness of the open known findings of reuseFinding (only on request)
+	if c.OnlyGen == "kf_reuse" {
+		for cas, k := range []string{"TxRecord", "HttpcStepX", "MessageStepX", "SqlStep_3"} {
+			if c.Want("kf_reuse", cas) {
+				oh("kf_reuse", cas).kfReuse(c.Rng("kf_reuse", cas), kindByName(k))
+			}
+		}
+	}
 	c.SetExtra("profilepack_read_bypassed", bypass)
+	c.SetExtra("receivers_steered_around_open_findings", nsteer)
+	c.SetExtra("pack_reader_filled_an_object_handed_back_before", aliased)
 	return nil
 }
